@@ -868,10 +868,11 @@ impl ParserListener for Screen {
     ///
     /// This method accepts any number of positional arguments as some `clear` implementations include a `;` after the first parameter causing the stream to assume a `0` second parameter.
     fn erase_in_display(&mut self, how: Option<u32>, _private: Option<bool>) {
+        let how = how.unwrap_or(0);
         let interval: std::ops::Range<u32> = match how {
-            Some(0) => self.cursor.y + 1..self.lines,
-            Some(1) => 0..self.cursor.y,
-            Some(2 | 3) => 0..self.lines,
+            0 => self.cursor.y + 1..self.lines,
+            1 => 0..self.cursor.y,
+            2 | 3 => 0..self.lines,
             _ => 0..0, // Handle invalid `how` values
         };
 
@@ -885,8 +886,8 @@ impl ParserListener for Screen {
             }
         }
 
-        if how == Some(0) || how == Some(1) {
-            self.erase_in_line(how, None);
+        if how == 0 || how == 1 {
+            self.erase_in_line(Some(how), None);
         }
     }
 
